@@ -723,6 +723,11 @@ func (vfs *MemFS) RemoveAll(path string) error {
 		return nil
 	}
 
+	// The rmdir system call does not permit removing ".", so we don't permit it either.
+	if path == "." || len(path) >= 2 && path[len(path)-1] == '.' && vfs.IsPathSeparator(path[len(path)-2]) {
+		return &fs.PathError{Op: "RemoveAll", Path: path, Err: vfs.err.InvalidArgument}
+	}
+
 	parent, child, pi, err := vfs.searchNode(path, slmLstat)
 	if vfs.isNotExist(err) {
 		return nil
